@@ -434,6 +434,9 @@ class DynamicEvaluationContext:
         self._decision_getter_and_evaluation_finalizer(decisions))
 
     has_errors = False
+    # NOTE: `apply` may be nested on the same context: leaving the inner block
+    # gives the decisions of the outer block back.
+    outer_decision_getter = self._decision_getter
     with dynamic_evaluate(self.evaluate, per_thread=self._per_thread):
       try:
         # Set decision getter for current decision.
@@ -452,7 +455,7 @@ class DynamicEvaluationContext:
         _dynamic_evaluation_stack.pop(self)
 
         # Reset decisions.
-        self._decision_getter = None
+        self._decision_getter = outer_decision_getter
 
         # Call evaluation finalizer to make sure all decisions are used.
         if not has_errors:
